@@ -44,7 +44,7 @@ def run(shard):
         if D.nontrivial_code(code):
             H.distinct(H.code_key(code))
 
-    D.drive(shard, "C02", on_decoded, "C02.instructions", variants=3)
+    D.drive(shard, "C02", on_decoded, "C02.instructions", variants=3, stress_same=D.same_instructions)
     import dis
     H.emit({"t": "opcodes", "interp": H.PYTAG, "seen": sorted(dis.opname[o] for o in seen_ops),
             "all": sorted(n for n in dis.opmap if not n.startswith("<"))})
